@@ -247,6 +247,27 @@ class Interp:
         self.obligations.append(ob)
         self.assume(claim)
 
+    def cover(self, name):
+        """vacuity guard: the assumptions collected on this path (requires, assumed callee contracts, invariants assumed after a
+        cut) must be satisfiable here; recorded as cover/<name> with status covered / unknown / vacuous.  A site is vacuous only
+        if it is on every path that reaches it (paths the branch test could not refute may be infeasible for good reasons)."""
+        if self.pos < len(self.prefix):
+            return
+        import time as _t
+        t0 = _t.time()
+        st, _ = smt.check_sat(list(self.ctx.axioms) + list(self.pc), timeout_ms=3000)
+        backend = "z3-sat"
+        if st == "sat":
+            status = "covered"
+        elif st == "unsat":
+            status = "vacuous"
+        else:
+            st2, _ = smt.check_sat([f for f in self.pc if not smt._has_quant(f)], timeout_ms=3000)
+            backend = "z3-sat(ground part; quantified facts are proved invariants or definitions)"
+            status = "covered" if st2 == "sat" else ("vacuous" if st2 == "unsat" else "unknown")
+        self.obligations.append(Obligation("cover/" + name, (), status, backend, _t.time() - t0, self.path_id, "", None,
+                                           self.trace[-1] if self.trace else ""))
+
     def fail(self, name, prop=(), detail=""):
         """an obligation that fails without a solver query (e.g. emitted text does not type)"""
         if not self.ctx.wants(prop, name) or self.pos < len(self.prefix):
@@ -407,7 +428,13 @@ class Interp:
             raise Unsupported(f"statement {type(s).__name__} at line {getattr(s, 'lineno', '?')}")
         hook = None
         if self.ctx.stmt_hooks and env.func is not None and not isinstance(s, (ast.For, ast.If, ast.While, ast.Try, ast.With, ast.FunctionDef)):
-            hook = self.ctx.stmt_hooks.get((env.func.__qualname__, ast.unparse(s)))
+            txt = ast.unparse(s)
+            hook = self.ctx.stmt_hooks.get((env.func.__qualname__, txt))
+            if hook is None:
+                for (qn, prefix), h in self.ctx.stmt_hooks.items():
+                    if prefix.endswith("*") and qn == env.func.__qualname__ and txt.startswith(prefix[:-1]):
+                        hook = h
+                        break
         m(s, env)
         if hook:
             hook(self, env)
@@ -807,6 +834,8 @@ class Interp:
                 parts.append(v.value)
             else:
                 parts.append(self.e_FormattedValue(v, env))
+        if len(parts) == 1 and isinstance(parts[0], SObj):
+            return parts[0]     # f"{x:spec}" alone is format(x, spec): an abstract string identified by the object model
         return models.concat(self, parts)
 
     def e_FormattedValue(self, e, env):
